@@ -20,6 +20,9 @@ import (
 
 func TestMain(m *testing.M) { rec.Main(m, "C05") }
 
+// ruleMore describes what was added to the exploration in the build phase.
+const ruleMore = "; texts may start with white space and may contain byte sequences that are not UTF-8 (tokens that end before such a byte, and an error at the byte or at the start of the lexeme it ends, are required)"
+
 const rule = "(1) the coded transition function against a reference automaton built from the documented token table: breadth-first exploration of all reachable (scanner state, reference state) pairs over every ASCII code point, " +
 	"plus every non-ASCII code point of Unicode for every reachable scanner state (complete enumeration): dead iff dead, same token kind (keyword over identifier), lexeme trimming, skip vs lexeme; " +
 	"(2) texts composed of valid tokens of every kind, near misses, comments and separators in any order, with and without final newline: the NextToken stream (kind, lexeme, offset, line, column; end of input or the lexical error and its position) " +
@@ -31,7 +34,7 @@ var scanner = ref.NewScanner()
 
 func TestTransitionFunctionExhaustive(t *testing.T) {
 	rec.Begin(t)
-	rec.Rule(rule)
+	rec.Rule(rule + ruleMore)
 	if rec.Shard() != 0 {
 		t.Skip("seed independent: shard 0 only")
 	}
@@ -255,7 +258,7 @@ var nearMisses = []string{"@lef", "@leftx", "@", "@Left", "$a", "$", "$1", `""`,
 var separators = []string{" ", "  ", "\t", "\n", "\r\n", "\n\n", " \t ", "\r", ""}
 
 func TestTokenStreams(t *testing.T) {
-	rec.Rule(rule)
+	rec.Rule(rule + ruleMore)
 	rec.Assume("a single upper-case letter used as TOKEN is not compared (token table says TOKEN, the documented automaton says no token); texts stay below one buffer half (the listed dependency finding of C13 concerns alignments at 4096-byte boundaries)")
 	rec.Check(t, 12000, 600000, func(t *rapid.T) {
 		n := rapid.IntRange(0, 14).Draw(t, "pieces")
@@ -307,7 +310,7 @@ func TestTokenStreams(t *testing.T) {
 }
 
 func TestArbitraryPrintableTexts(t *testing.T) {
-	rec.Rule(rule)
+	rec.Rule(rule + ruleMore)
 	alphabet := []rune("ab gr@$\"/\\*{}=;|<>()[]AZ_09\n\t'#é")
 	rec.Check(t, 6000, 300000, func(t *rapid.T) {
 		rs := rapid.SliceOfN(rapid.SampledFrom(alphabet), 0, 24).Draw(t, "text")
